@@ -42,6 +42,7 @@ GenNext ==
        \/ CLock(r) /\ Log([a |-> "CLock", p |-> r])
        \/ HLock(r) /\ Log([a |-> "HLock", p |-> r])
        \/ SendBegin(r) /\ Log([a |-> "SendBegin", p |-> r])
+       \/ SaveBegin(r) /\ Log([a |-> "SaveBegin", p |-> r])
        \/ \E ok \in BOOLEAN : Save(r, ok) /\ Log([a |-> "Save", p |-> r, ok |-> ok])
        \/ End(r) /\ Log([a |-> "End", p |-> r])
   \/ \E p \in Purgers :
